@@ -399,7 +399,7 @@ type replayResult struct {
 // and runs it on the concrete values of a solver model.
 func nativeReplay(spec *HarnessSpec, dir string, values []uint64, choices []int64, params map[string]int) replayResult {
 	os.MkdirAll(dir, 0755)
-	rp := map[string]interface{}{"values": values, "choices": choices, "params": params, "harness": spec.Name, "pkg": spec.Pkg, "files": spec.Files, "repeat": spec.ReplayRepeat, "race": spec.NativeRace}
+	rp := map[string]interface{}{"values": values, "choices": choices, "params": params, "harness": spec.Name, "pkg": spec.Pkg, "files": spec.Files, "repeat": spec.ReplayRepeat, "race": spec.NativeRace, "quiesce_ms": spec.NativeQuiesceMs}
 	os.WriteFile(filepath.Join(dir, "replay.json"), mustJSON(rp), 0644)
 	return runReplayDir(dir)
 }
@@ -417,6 +417,7 @@ func runReplayDir(dir string) replayResult {
 		Files   []string `json:"files"`
 		Repeat  int      `json:"repeat"`
 		Race    bool     `json:"race"`
+		QuiesceMs int    `json:"quiesce_ms"`
 	}
 	json.Unmarshal(b, &rp)
 	spec := &HarnessSpec{Name: rp.Harness, Pkg: rp.Pkg, Files: rp.Files}
@@ -459,6 +460,9 @@ func TestVrtReplay(t *testing.T) {
 	cmd.Env = append(os.Environ(), "GOFLAGS=-mod=mod", "GOPROXY=off", "GOSUMDB=off", "GOTOOLCHAIN=local", "VRT_REPLAY="+filepath.Join(dir, "replay.json"))
 	if rp.Repeat > 0 {
 		cmd.Env = append(cmd.Env, fmt.Sprintf("VRT_REPEAT=%d", rp.Repeat))
+	}
+	if rp.QuiesceMs > 0 {
+		cmd.Env = append(cmd.Env, fmt.Sprintf("VRT_QUIESCE_MS=%d", rp.QuiesceMs))
 	}
 	out, _ := cmd.CombinedOutput()
 	res.Output = string(out)
